@@ -11,15 +11,15 @@ CHECKS = {
          "Trusts the regex, chrono and cidr crates as primitives of the reference predicate and the predicate itself (cross-checked by seeded breaks); request URLs are normalisation-stable (C09 owns normalisation); exclude_methods in {absent,true}.",
          "5/C01"),
  "C02": ("history monitor with executable live-set model + differential (incremental vs rebuilt router) + index-dump invariant hook",
-         "Random op histories over insert/remove/batch_remove/apply_change_set/clone-then-mutate/cache are applied to the real router; after EVERY op the monitor checks len/get_route_by_id/remove return values against a live-set model, that the ids stored anywhere in the layered index (read through the verif hook) are exactly the live ids, that every probe request gets the same answer from the incremental router, a router rebuilt from the live rules and the flat C01 predicate, and that every earlier shared base router still gives its recorded answers. Failing histories are minimised by delta debugging.",
+         "Random op histories over insert/remove/batch_remove/apply_change_set/clone-then-mutate/cache are applied to the real router; after EVERY op the monitor checks len/get_route_by_id/remove return values against a live-set model, that the ids stored anywhere in the layered index (read through the verif hook) are exactly the live ids, that every probe request gets the same answer from the incremental router, a router rebuilt from the live rules and the flat C01 predicate, and that every earlier shared base router still gives its recorded answers. Failing histories are minimised by delta debugging. A quarter of the histories run over the 113 rule sets harvested from the repository's generated router test (raw JSON rules: differential relations only).",
          "Trusts the C01 reference predicate; id uniqueness among live rules is enforced by the generator (ops violating it are skipped and counted).",
          "5/C02"),
  "C03": ("differential runtime monitor: chunked vs single-chunk delivery through the real FilterBodyAction, exhaustive single cuts per body, failure minimisation + classification by an independent span scanner",
-         "For every (body, filter list) the single-chunk output is compared byte for byte with the output for partitions of the body: every single cut offset, strides, all 2-cut partitions of small bodies, random k-cuts with empty chunks, over a hostile corpus and its mutations. A failing partition is minimised to a minimal cut set; it is a known finding only when a necessary cut lies inside a comment/doctype/CDATA/raw-text construct according to a scanner that is independent of the tokenizer (and agrees with it on that body); anything else is a violation.",
+         "For every (body, filter list) the single-chunk output is compared byte for byte with the output for partitions of the body: every single cut offset, strides, all 2-cut partitions of small bodies, random k-cuts with empty chunks, over a hostile corpus and its mutations. A failing partition is minimised to a minimal cut set; it is a known finding only when a necessary cut lies inside a comment/doctype/CDATA/raw-text construct whose content contains markup-looking text (or which is unterminated) according to a scanner that is independent of the tokenizer (and agrees with it on that body); anything else is a violation.",
          "Bodies are valid UTF-8 (the property's domain); the independent scanner only decides which failures may be listed as known; failures on bodies where scanner and tokenizer disagree are reported as inconclusive.",
          "5/C03"),
  "C04": ("byte-conservation invariant monitor at the filter boundary with sentinel values; fault injection by input (invalid UTF-8 at every offset); error state and held bytes observed through hooks",
-         "Filter values are private-use sentinels that cannot occur in the body, so conservation is decidable exactly: no chain => out == b; insert-only lists => out minus values == b; HTML replace => out minus values is b minus '<...>' spans (DP). Checked for arbitrary bytes x whole / byte-at-a-time / strides / every single cut / random cuts, with an invalid byte injected at every offset of every corpus document; the hooks report bytes held back and the error state after every call, which also gives the exact signature of the one known loss (held bytes dropped on error).",
+         "Filter values are private-use sentinels that cannot occur in the body, so conservation is decidable exactly: no chain => out == b; insert-only lists => out minus values == b; HTML replace => out minus values is b minus '<...>' spans (DP). Checked for arbitrary bytes x whole / byte-at-a-time / strides / every single cut / random cuts, with an invalid byte injected at every offset of every corpus document; the hooks report bytes held back and the error state after every call, which also gives the exact signature of the one known loss (held bytes dropped when the chain fails on a body that is not valid UTF-8). HTML filters carry absent / empty / different inner_value (a trace-only field that must never reach the body).",
          "replace_text is outside the statement; compressed bodies are C14's subject; the replace oracle is checked for bodies <= 1500 bytes.",
          "5/C04"),
  "C08": ("history monitor with executable model (flat list scanned with the regex crate) on the real RegexTreeMap/UniqueRegexTreeMap; exhaustive insertion orders x removal subsets for small pattern sets; tree snapshots through the hook",
@@ -28,10 +28,10 @@ CHECKS = {
          "5/C08"),
  "C13": ("reference-fold runtime monitor; exhaustive enumeration of header lists x filter sequences (k<=3) + random longer cases, through FilterHeaderAction::filter and Action::filter_headers",
          "The five operations + unknown are folded by a reference written from the statement and compared with both real entry points for every header list of length <= 3 over {A,a,B}x{'',1,2} and every filter sequence of length k<=2 (quick) / k<=3 on reduced alphabets (thorough), plus random longer lists with real header names.",
-         "Trusts serde_json (to build the Action) and str::to_lowercase as the meaning of case-insensitive.",
+         "Trusts serde_json (to build the Action); case-insensitive = str::to_lowercase for ASCII names; for names with non-ASCII cased letters either consistent reading (Unicode or ASCII-only folding) is accepted, but one reading for all operations of a sequence.",
          "5/C13"),
- "C16": ("runtime span-accounting monitor on the real tokenizer; bounded-exhaustive short strings + random/mutated inputs",
-         "Every enumerated or generated byte string is tokenised by the real Tokenizer under an oracle that checks termination within |b|+1 tokens, non-empty spans, exact reconstruction of the input from raw spans + remainder, no panic, accessor success on valid UTF-8 and accessor non-interference (twin run). All strings up to length 7 (quick) / 8 (thorough) over a 15-symbol markup alphabet and all short suffixes after 20 context prefixes are enumerated completely; longer inputs (incl. random non-ASCII characters in every token position) are sampled. Held-on-what-was-observed, not a proof.",
+ "C16": ("runtime span-accounting monitor on the real tokenizer; bounded-exhaustive short strings + random/mutated inputs; non-termination decided on CPU time (suspect input replayed alone under RLIMIT_CPU)",
+         "Every enumerated or generated byte string is tokenised by the real Tokenizer under an oracle that checks termination within |b|+1 tokens, non-empty spans, exact reconstruction of the input from raw spans + remainder, no panic, accessor success on valid UTF-8 and accessor non-interference (twin run). All strings up to length 7 (quick) / 8 (thorough) over a 15-symbol markup alphabet and all short suffixes after 20 context prefixes are enumerated completely; longer inputs (incl. random non-ASCII characters in every token position) are sampled; every fragment context of Tokenizer::new_fragment x allow_cdata on/off is enumerated to length 4 and sampled. Held-on-what-was-observed, not a proof.",
          "Trusts rustc/std and String::from_utf8 as the definition of valid UTF-8; inputs longer than the enumerated bounds are only sampled.",
          "5/C16"),
 }
@@ -42,31 +42,31 @@ CHECKS.update({
          "Trusts the C13 header reference; exclusion flag in {absent,true}; sampling rates strictly inside (0,100) are random and excluded.",
          "5/C05"),
  "C06": ("round-trip runtime monitor (serde_json and the C JSON entry points) with behavioural observation before/after",
-         "For actions produced by the real pipeline over the C05 effect grid the monitor checks ser(de(ser(a))) == ser(a), equality of the C05 observations at 6 codes before and after the round trip, single getters at every code, and the same strings through redirectionio_action_json_*; for requests from the C01 generator (plus marketing parameters, upper-case / non-ASCII URLs, IPv6, sub-second timestamps) it checks that the restored request matches the same rules raw and re-normalised, also through redirectionio_request_json_*.",
+         "For actions produced by the real pipeline over the C05 effect grid the monitor checks ser(de(ser(a))) == ser(a), equality of the C05 observations at 6 codes before and after the round trip, single getters at every code, and the same strings through redirectionio_action_json_*; for requests from the C01 generator (plus marketing parameters, upper-case / non-ASCII URLs, IPv6, sub-second timestamps) it checks that the restored request matches the same rules raw and re-normalised, also through redirectionio_request_json_*. Further: actions from rules with hostile effect values (empty / NUL / control / non-ASCII / 2 KB strings, present-null-absent optional fields), the hand-off in the middle of an exchange (applied-rule bookkeeping), the legacy wire format of requests, absent optional request fields, the action built for the restored request, and the repository's fixture worlds.",
          "Trusts serde_json; the wasm bindings are not compiled on this target and are not claimed.",
          "5/C06"),
  "C11": ("constancy (metamorphic) runtime monitor: permutations of the matched list, permuted insertion orders, different update histories; reference order check",
-         "For rule sets of 2-48 rules with many rank ties, case-variant ids and conflicting effects, the serialised action is compared across all k! permutations of the matched list (k<=6, 61 random ones otherwise), routers built with permuted insertion orders, remove+re-insert and two change-sets with a cache warm-up in between, and the order of the contributing rules is compared with (rank desc, id desc).",
+         "For rule sets of 2-48 rules with many rank ties, case-variant ids and conflicting effects, the serialised action is compared across all k! permutations of the matched list (k<=6, 61 random ones otherwise), routers built with permuted insertion orders, remove+re-insert and two change-sets with a cache warm-up in between, and the order of the contributing rules is compared with (rank desc, id desc). A third of the cases give rules triggers the one request satisfies (several ip ranges of one rule, methods, header condition: the rule sits in several buckets), a router variant applies an update-only change-set over earlier versions of the rules, and routers of the C01 generator and of the repository's fixtures are rebuilt in shuffled order.",
          "Trusts serde_json serialisation as the observable and the C05 reference order; sampling disabled (precondition of the property).",
          "5/C11"),
  "C12": ("twin (metamorphic) runtime monitor: identical update history with and without cache calls; exhaustive (limit, level) on small trees; thread stress on the shared RwLock<LazyRegex>; cache states read through the hooks",
-         "Two routers receive the same C02-style history, one of them with cache(n) calls sprinkled in (n in {None,0,1,2,3,5,8,10^6}); after every op match ids, Route::capture of every matched route and the canonicalised trace must be identical for every probe. For small pattern sets every (limit, level) call and a third of all call pairs are enumerated against the uncached twin and the linear scan. A stress run matches on an Arc<Router> from 4 threads while clones sharing the routes are cached. The hooks show that uncached, partially cached and fully cached states were all observed.",
+         "Two routers receive the same C02-style history, one of them with cache(n) calls sprinkled in (n in {None,0,1,2,3,5,8,10^6}); after every op match ids, Route::capture of every matched route and the canonicalised trace must be identical for every probe. For small pattern sets every (limit, level) call and a third of all call pairs are enumerated against the uncached twin and the linear scan; 21 raw pattern sets beyond the rule shape (top-level classes, counted repetitions, alternations, uncompilable and empty patterns, non-ASCII case folding) are enumerated for transparency only. A stress run matches on an Arc<Router> from 4 threads while clones sharing the routes are cached. The hooks show that uncached, partially cached and fully cached states were all observed.",
          "The twin is the same library code without cache calls (metamorphic relation); regex crate for the linear scan of the tree part.",
          "5/C12"),
  "C17": ("differential runtime monitor: trace_request / get_trace / TraceAction vs match_request / get_route / Action::from_routes_rule on the C01 workload",
-         "For every generated (router, request) over all 7 layers and 64 flag combinations, with random effects, optional remove/re-insert churn and cache warm-up: set(routes in the trace) == set(matched routes), traced final route priority == get_route priority == maximal priority, get_trace route list == matched, and for tie-free matches the last TraceAction step is observationally equal (C05 protocol, 6 codes) to the live action.",
+         "For every generated (router, request) over all 7 layers and 64 flag combinations, with random effects, optional remove/re-insert churn and cache warm-up: set(routes in the trace) == set(matched routes), traced final route priority == get_route priority == maximal priority, get_trace route list == matched, and for tie-free matches the last TraceAction step is observationally equal (C05 protocol, 6 codes) to the live action. The same on the repository's 113 fixture worlds (plain, churned, cached) and on focused single-bucket worlds whose rules share date-time / header conditions.",
          "Sets, not multisets, as the statement says; trace internals are read through their serde serialisation.",
          "5/C17"),
 })
 
 CHECKS.update({
  "C09": ("metamorphic runtime monitor over the full 2^6 configuration cube x 3 marketing sets: self-match, separation, permutation, marketing parameters (+ Location forwarding), case swap, idempotence",
-         "No reference normaliser: the rule side and the request side of the real library must agree with each other. For every configuration and generated URL (reserved/unreserved punctuation, spaces, quotes, '+', %xx incl. invalid UTF-8, raw non-ASCII, characters the URI parser rejects; repeated keys, empty values, keys without '=', '&&', trailing '&', '?' alone) the monitor checks M1 self-match, M2 separation, M3 parameter permutation, M4 marketing parameters ignored and forwarded to the target iff configured, M5 ASCII case swap under the case flag, M6 idempotence. Failures are known findings only for three exact signatures computed in the harness (normalisation skipped + non-canonical request; rule query containing a configured marketing key; sort-before-lowercase).",
+         "No reference normaliser: the rule side and the request side of the real library must agree with each other. For every configuration and generated URL (reserved/unreserved punctuation, spaces, quotes, '+', %xx incl. invalid UTF-8, raw non-ASCII, characters the URI parser rejects; repeated keys, empty values, keys without '=', '&&', trailing '&', '?' alone) the monitor checks M1 self-match, M2 separation, M3 parameter permutation, M4 marketing parameters ignored and forwarded to the target iff configured, M5 ASCII case swap under the case flag, M6 idempotence (base URL, every variant, legacy wire format, Location after two re-normalisations), M1' the same literal rule declaring an unused marker answers identically; every relation of a case is evaluated even after one failed. Failures are known findings only for three exact signatures computed in the harness (normalisation skipped + non-canonical request; rule query containing a configured marketing key; sort-before-lowercase).",
          "The http crate's URI parser and a harness-side form decoder/canonical query are used only for generation and for the known-finding signatures.",
          "5/C09"),
  "C10": ("generator-knows-the-answer runtime monitor: templates instantiated with accepted / unambiguously rejected strings; expected substitutions computed by an independent longest-name-first substituter and transformer model",
          "Templates over path, query, host and match_regex headers with 1-4 markers whose names are prefixes of one another and 8 typed expressions are instantiated; the rule must match iff every instantiation is accepted, and Location, Action::get_target, the header-filter value and the text/HTML body-filter values must equal the template with every reference replaced by the transformer chain applied to the captured string (marker transformers, then variable transformers; explicit variables of kinds marker / request header with default / host / method / scheme / path in shuffled declaration order).",
-         "std case mapping and the heck crate as transformer primitives; captured values never contain '@'; slice on ASCII captures with from <= to.",
+         "std case mapping and the heck crate as transformer primitives; captured values never contain '@'; slice offsets on character boundaries with from <= to (other chains are discarded by the generator).",
          "5/C10"),
 })
 
@@ -83,15 +83,15 @@ CHECKS.update({
 
 CHECKS.update({
  "C19": ("differential runtime monitor: project (Arc<Router> + change-set) vs standalone analyses in sorted and permuted rule order; reported responses vs the live pipeline driven in proxy order; redirect chains vs an independent follower",
-         "For generated base rule sets, change-sets, examples, hop limits and project domains, the unit-ids, test-examples, explain and impact (add/update/delete, with and without redirect analysis) analyses computed from the existing router plus the change-set are compared (canonicalised) with the same analyses computed from scratch on the resulting rule list, in two rule orders; every reported response (status, headers, body, log decision) is compared with the live pipeline driven by the harness through the public API in proxy order, and every redirect chain with an independent follower (hops, Loop exactly when a (URL, method) repeats, TooManyHops, hops <= max_hops + 1).",
+         "For generated base rule sets, change-sets, examples, hop limits and project domains, the unit-ids, test-examples, explain and impact (add/update/delete, with and without redirect analysis) analyses computed from the existing router plus the change-set are compared (canonicalised) with the same analyses computed from scratch on the resulting rule list, in two rule orders; every reported response (status, headers, body, log decision) is compared with the live pipeline driven by the harness through the public API in proxy order, and every redirect chain with an independent follower (hops, Loop exactly when a (URL, method) repeats, TooManyHops, hops <= max_hops + 1). Filters carry unit ids / target hashes in all shapes, examples include ones the request builder rejects, configurations include the case policies.",
          "Rules without sampling; <= 10 failing rules per analysis; trace node counts / empty buckets are not compared (bookkeeping the statement does not speak of), only the traced route ids; url crate for joining redirect targets.",
          "5/C19"),
 })
 
 CHECKS.update({
  "C18": ("FFI call-sequence driver with value oracle under memory monitors: auditing global allocator (layout of every dealloc/realloc, unknown frees, leak-by-repetition), Miri, and in the thorough tier ASan+LSan, valgrind memcheck and a C client under clang ASan/UBSan",
-         "Generated call sequences create* ; use* ; drop over requests, actions, header lists (caller-built and library-built, released node by node and string by string as the C modules do), body filters (create / filter* / close | drop), buffers (incl. duplicate/clone and outputs whose capacity differs from their length), returned strings, logging and the accounted immortals follow the ownership protocol of the nginx/apache modules. Every result is compared with the native API. The same driver runs under an auditing allocator that checks every deallocation layout and decides leaks by repetition, under Miri (Stacked Borrows; Tree Borrows with CSS selectors in the thorough tier) and, thorough, under ASan/LSan, valgrind and as a real C program linked against libredirectionio.a.",
-         "Miri / ASan / valgrind / the audit allocator as memory oracles; Stacked-Borrows runs avoid CSS selectors (third-party servo_arc is rejected by Stacked Borrows); wasm bindings not covered.",
+         "Generated call sequences create* ; use* ; drop over requests, actions, header lists (caller-built and library-built, released node by node and string by string as the C modules do), body filters (create / filter* / close | drop), buffers (incl. duplicate/clone and outputs whose capacity differs from their length), returned strings, logging and the accounted immortals follow the ownership protocol of the nginx/apache modules. Every result is compared with the native API. The same driver runs under an auditing allocator that checks every deallocation layout and decides leaks by repetition, under Miri (Stacked Borrows; in the thorough tier also Tree Borrows, and the scenarios with CSS selectors with the aliasing model switched off) and, thorough, under ASan/LSan, valgrind and as a real C program linked against libredirectionio.a.",
+         "Miri / ASan / valgrind / the audit allocator as memory oracles; runs under an aliasing model avoid CSS selectors (third-party servo_arc 0.4.3 is rejected by both Stacked and Tree Borrows; those scenarios run under Miri without aliasing model: use-after-free, double free, invalid deallocation, leaks, uninitialised reads still checked); wasm bindings not covered.",
          "5/C18"),
 })
 
